@@ -113,6 +113,9 @@ func (x *Exec) verify() {
 	if len(fn.FreeVars) > 0 {
 		for _, fv := range fn.FreeVars {
 			v := x.freshVal("fv."+fv.Name(), fv.Type())
+			if pv, ok := v.(PtrVal); ok {
+				x.assume(o.Not(pv.Nil)) // a captured variable: the closure holds a pointer to it
+			}
 			x.constrainParam(entry, v)
 			entry.Regs[fv] = v
 			x.params[fv.Name()] = SVal{V: v, T: fv.Type()}
@@ -151,6 +154,24 @@ func (x *Exec) verify() {
 		}
 		if len(gs) > 0 {
 			ob := x.oblige("cover", "return", nil, "some return is reachable", o.True(), o.Not(o.Or(gs...)))
+			ob.Cover = true
+		}
+	}
+	{
+		ords := make([]int, 0, len(x.stepOutcomes))
+		for k := range x.stepOutcomes {
+			ords = append(ords, k)
+		}
+		sort.Ints(ords)
+		for _, k := range ords {
+			var rep, silent []*Term
+			for _, gv := range x.stepOutcomes[k] {
+				rep = append(rep, o.And(gv[0], gv[1]))
+				silent = append(silent, o.And(gv[0], o.Not(gv[1])))
+			}
+			ob := x.oblige("cover", fmt.Sprintf("step%d.reports", k), nil, "some iteration of the loop reports a failure", o.True(), o.Not(o.Or(rep...)))
+			ob.Cover = true
+			ob = x.oblige("cover", fmt.Sprintf("step%d.silent", k), nil, "some iteration of the loop reports nothing", o.True(), o.Not(o.Or(silent...)))
 			ob.Cover = true
 		}
 	}
@@ -311,6 +332,7 @@ func (x *Exec) frameObligations(st *State, paramObjs []*Object) {
 		reg, lo, hi *Term
 	}
 	var ranges []rng
+	anyBytes := false // `assigns heap`: all byte memory may change
 	for _, a := range fc.Assigns {
 		ex, err := ParseSpecExpr(a)
 		if err != nil {
@@ -329,6 +351,13 @@ func (x *Exec) frameObligations(st *State, paramObjs []*Object) {
 				if id, ok := call.Fun.(*EIdent); ok && id.Name == "decoder" {
 					return // ghost state: no memory frame to check
 				}
+			}
+			if id, ok := ex.(*EIdent); ok && id.Name == "reports" {
+				return // ghost state
+			}
+			if id, ok := ex.(*EIdent); ok && id.Name == "heap" {
+				anyBytes = true
+				return
 			}
 			switch t := ex.(type) {
 			case *EUnary:
@@ -392,6 +421,9 @@ func (x *Exec) frameObligations(st *State, paramObjs []*Object) {
 			ob.Discipline = true
 			goto objects
 		}
+	}
+	if anyBytes {
+		goto objects
 	}
 	if st.H != x.entry.H {
 		r := o.Var("frame.r", IntSort)
@@ -462,6 +494,20 @@ func (w *World) CheckContractsResolve() []string {
 	var errs []string
 	for _, pk := range w.Pkgs {
 		for _, key := range pk.Contracts.FuncOrder {
+			if strings.HasPrefix(key, "var:") {
+				continue // an assumed contract of the function value held in a local variable of that name
+			}
+			if strings.HasPrefix(key, "type:") || strings.HasPrefix(key, "method:") {
+				// an assumed contract of a function type / interface method: the named type must exist
+				name := strings.TrimPrefix(strings.TrimPrefix(key, "type:"), "method:")
+				if k := strings.Index(name, "."); k >= 0 {
+					name = name[:k]
+				}
+				if pk.P.Types.Scope().Lookup(name) == nil {
+					errs = append(errs, fmt.Sprintf("%s: assumed contract %s names no type of package %s", relPath(w.RepoDir, pk.Contracts.File), key, pk.Name))
+				}
+				continue
+			}
 			if len(pk.Funcs[key]) == 0 {
 				errs = append(errs, fmt.Sprintf("%s: contract for %s.%s names no function (or no instantiation exists)", relPath(w.RepoDir, pk.Contracts.File), pk.Name, key))
 			}
